@@ -315,12 +315,56 @@ func (in *inst) rewriteSelect(ss *ast.SelectStmt, lbl *ast.Ident) ast.Stmt {
 	block.List = append(block.List,
 		&ast.AssignStmt{Lhs: []ast.Expr{ast.NewIdent(id)}, Tok: token.DEFINE,
 			Rhs: []ast.Expr{&ast.CallExpr{Fun: sel("vsched", "Select"), Args: args}}})
+	block.List = append(block.List, sw)
+	if lbl != nil && hasBareContinue(ss) {
+		// an unlabeled continue in a case targets an enclosing loop: the wrapper loop below would
+		// capture it. Keep the label on the switch (break L works, goto L would not re-evaluate).
+		block.List[len(block.List)-1] = &ast.LabeledStmt{Label: lbl, Stmt: sw}
+		return block
+	}
 	if lbl != nil {
-		block.List = append(block.List, &ast.LabeledStmt{Label: lbl, Stmt: sw})
-	} else {
-		block.List = append(block.List, sw)
+		// a labeled select: `goto L` must re-evaluate the whole select (cases and the scheduler
+		// decision). Without a `break L` in its cases the label goes on the rewritten BLOCK (which
+		// keeps the statement terminating where the select was); with one, on a one-pass loop
+		// around it: L: for { cases...; Select; switch {...}; break }
+		if !hasLabeledBreak(ss, lbl.Name) {
+			return &ast.LabeledStmt{Label: lbl, Stmt: block}
+		}
+		block.List = append(block.List, &ast.BranchStmt{Tok: token.BREAK})
+		return &ast.LabeledStmt{Label: lbl, Stmt: &ast.ForStmt{Body: block}}
 	}
 	return block
+}
+
+func hasLabeledBreak(ss *ast.SelectStmt, name string) bool {
+	found := false
+	ast.Inspect(ss.Body, func(n ast.Node) bool {
+		if b, ok := n.(*ast.BranchStmt); ok && b.Tok == token.BREAK && b.Label != nil && b.Label.Name == name {
+			found = true
+		}
+		return !found
+	})
+	return found
+}
+
+// hasBareContinue reports an unlabeled continue inside the select's cases that would bind to a
+// loop outside the select (nested loops and function literals are skipped).
+func hasBareContinue(ss *ast.SelectStmt) bool {
+	found := false
+	var walk func(n ast.Node) bool
+	walk = func(n ast.Node) bool {
+		switch v := n.(type) {
+		case *ast.FuncLit, *ast.ForStmt, *ast.RangeStmt:
+			return false
+		case *ast.BranchStmt:
+			if v.Tok == token.CONTINUE && v.Label == nil {
+				found = true
+			}
+		}
+		return !found
+	}
+	ast.Inspect(ss.Body, walk)
+	return found
 }
 
 func unparen(e ast.Expr) ast.Expr {
